@@ -118,19 +118,24 @@ func (cw *CobsWrapper) Read(b []byte) (int, error) {
 			}
 			if lb[i] == 0 {
 				// found end of packet, copy to read buffer and process
-				_, _ = cw.readLeftover.Read(b[0:i])
-				return cobsDecodeInplace(b[0:i])
+				_, _ = cw.readLeftover.Read(b[0 : i+1])
+				return cobsDecodeInplace(b[0 : i+1])
 			}
 		}
 
-		// write leftover bytes to beginning of buffer
-		bBuf := bytes.NewBuffer(b)
-		c, _ := bBuf.Write(cw.readLeftover.Bytes())
-
-		cur += c
+		// move leftover bytes to beginning of buffer
+		cur += copy(b, lb)
+		cw.readLeftover.Reset()
 	}
 
+	// a packet may already have started in the leftover bytes
 	foundStart := false
+	for i := 0; i < cur; i++ {
+		if b[i] != 0 {
+			foundStart = true
+			break
+		}
+	}
 
 	for {
 		c, err := cw.dev.Read(b[cur:])
